@@ -12,6 +12,9 @@ use std::collections::{BTreeMap, BTreeSet};
 const WR1: &str = "id: wr1\nsteps:\n  - id: s1\n    acts:\n      - uses: acts.core.irq\n        key: a1\n  - id: s2\n";
 const WR2: &str = "id: wr2\nsteps:\n  - id: s1\n    branches:\n      - id: b1\n        if: \"true\"\n        steps:\n          - id: s11\n            acts:\n              - uses: acts.core.irq\n                key: a1\n      - id: b2\n        if: \"true\"\n        steps:\n          - id: s21\n            acts:\n              - uses: acts.core.irq\n                key: a2\n  - id: s2\n";
 
+/// a lifecycle hook that runs after the process has ended (a task event after the terminal event)
+const WR3: &str = "id: wr3\nsetup:\n  - uses: acts.core.msg\n    key: bye\n    on: completed\nsteps:\n  - id: s1\n    acts:\n      - uses: acts.core.irq\n        key: a1\n";
+
 #[derive(Clone, Debug)]
 pub struct Scn {
     pub id: String,
@@ -28,7 +31,7 @@ pub fn scenarios(tier: Tier) -> Vec<Scn> {
     let endings = ["complete", "abort", "skip", "error"];
     for keep in [false, true] {
         for sqlite in [false, true] {
-            for (mi, models) in [[WR1, WR1], [WR2, WR1]].into_iter().enumerate() {
+            for (mi, models) in [[WR1, WR1], [WR2, WR1], [WR3, WR1]].into_iter().enumerate() {
                 for e1 in endings {
                     for e2 in endings {
                         for first in 0..2usize {
@@ -225,13 +228,25 @@ pub fn run_one(ch: &mut Chooser, sc: &Scn, want_log: bool) -> RunObs {
 
 // ---- models and their start events ----------------------------------------------------------
 
-fn model_yml(i: usize) -> String {
-    let events = [2usize, 1, 0][i];
+/// model `i` in variant `v`: the variants differ in their start events (a redeploy can drop one)
+fn events_of(i: usize, v: usize) -> Vec<String> {
+    let n = match (i, v) {
+        (0, 0) => 2,
+        (0, _) => 1,
+        (1, 0) => 1,
+        (1, _) => 2,
+        _ => 0,
+    };
+    (0..n).map(|e| format!("ev{e}")).collect()
+}
+
+fn model_yml(i: usize, v: usize) -> String {
+    let events = events_of(i, v);
     let mut s = format!("id: em{i}\n");
-    if events > 0 {
+    if !events.is_empty() {
         s += "on:\n";
-        for e in 0..events {
-            s += &format!("  - id: ev{e}\n    uses: acts.event.manual\n");
+        for e in &events {
+            s += &format!("  - id: {e}\n    uses: acts.event.manual\n");
         }
     }
     s += "steps:\n  - id: s1\n";
@@ -242,8 +257,16 @@ fn models_part(sqlite: bool, depth: usize, out: &mut ItemOut) {
     let scen = format!("models/{}", if sqlite { "sqlite" } else { "memory" });
     let mut viols: BTreeMap<String, String> = BTreeMap::new();
     let mut edges = 0i64;
-    let mut seen: BTreeSet<BTreeSet<usize>> = BTreeSet::new();
-    let alphabet: Vec<(bool, usize)> = (0..3).flat_map(|i| [(true, i), (false, i)]).collect();
+    let mut seen: BTreeSet<String> = BTreeSet::new();
+    // (deploy?, model, variant)
+    let mut alphabet: Vec<(bool, usize, usize)> = vec![];
+    for i in 0..3 {
+        alphabet.push((true, i, 0));
+        if i < 2 {
+            alphabet.push((true, i, 1));
+        }
+        alphabet.push((false, i, 0));
+    }
     let mut idx = vec![0usize; depth];
     'outer: loop {
         let cfg = Cfg {
@@ -251,29 +274,40 @@ fn models_part(sqlite: bool, depth: usize, out: &mut ItemOut) {
             ..Default::default()
         };
         let sess = Session::new(&cfg);
-        let mut deployed: BTreeSet<usize> = BTreeSet::new();
+        // per model: the variant deployed now, and every event registered since the last removal
+        let mut deployed: BTreeMap<usize, usize> = BTreeMap::new();
+        let mut ever: BTreeMap<usize, BTreeSet<String>> = BTreeMap::new();
         for (d, k) in idx.iter().enumerate() {
-            let (dep, i) = alphabet[*k];
+            let (dep, i, v) = alphabet[*k];
             let ex = sess.engine.executor();
             if dep {
-                let wf = acts::Workflow::from_yml(&model_yml(i)).unwrap();
+                let wf = acts::Workflow::from_yml(&model_yml(i, v)).unwrap();
                 let _ = ex.model().deploy(&wf);
-                deployed.insert(i);
+                deployed.insert(i, v);
+                ever.entry(i).or_default().extend(events_of(i, v).into_iter().map(|e| format!("em{i}:{e}")));
             } else {
                 let _ = ex.model().rm(&format!("em{i}"));
                 deployed.remove(&i);
+                ever.remove(&i);
             }
             edges += 1;
-            seen.insert(deployed.clone());
+            seen.insert(format!("{deployed:?}{ever:?}"));
             let h = sess.engine.verif();
             let evs: BTreeSet<String> = h.events().query(&Query::new()).map(|p| p.rows.iter().map(|e| e.id.clone()).collect()).unwrap_or_default();
-            let want: BTreeSet<String> = deployed.iter().flat_map(|i| (0..[2usize, 1, 0][*i]).map(move |e| format!("em{i}:ev{e}"))).collect();
+            // every `on` entry of the deployed definitions is registered; nothing is registered that was
+            // never declared; nothing of a removed model is left
+            let must: BTreeSet<String> = deployed.iter().flat_map(|(i, v)| events_of(*i, *v).into_iter().map(move |e| format!("em{i}:{e}"))).collect();
+            let may: BTreeSet<String> = ever.values().flatten().cloned().collect();
             let models: BTreeSet<String> = h.models().query(&Query::new()).map(|p| p.rows.iter().map(|m| m.id.clone()).collect()).unwrap_or_default();
-            let want_models: BTreeSet<String> = deployed.iter().map(|i| format!("em{i}")).collect();
-            let seq: Vec<String> = idx[..=d].iter().map(|k| format!("{}(em{})", if alphabet[*k].0 { "deploy" } else { "rm" }, alphabet[*k].1)).collect();
-            if evs != want {
-                let class = if evs.len() > want.len() { "events-left" } else { "events-lost" };
-                viols.entry(format!("models/{class}")).or_insert(format!("after {seq:?}: event rows {evs:?}, expected {want:?}"));
+            let want_models: BTreeSet<String> = deployed.keys().map(|i| format!("em{i}")).collect();
+            let seq: Vec<String> = idx[..=d].iter().map(|k| format!("{}(em{} v{})", if alphabet[*k].0 { "deploy" } else { "rm" }, alphabet[*k].1, alphabet[*k].2)).collect();
+            let missing: Vec<&String> = must.iter().filter(|e| !evs.contains(*e)).collect();
+            let left: Vec<&String> = evs.iter().filter(|e| !may.contains(*e)).collect();
+            if !missing.is_empty() {
+                viols.entry("models/events-lost".into()).or_insert(format!("after {seq:?}: the start events {missing:?} of deployed models are not registered (rows {evs:?})"));
+            }
+            if !left.is_empty() {
+                viols.entry("models/events-left".into()).or_insert(format!("after {seq:?}: the event rows {left:?} belong to no deployed model"));
             }
             if models != want_models {
                 viols.entry("models/model-rows".into()).or_insert(format!("after {seq:?}: model rows {models:?}, expected {want_models:?}"));
@@ -298,7 +332,7 @@ fn models_part(sqlite: bool, depth: usize, out: &mut ItemOut) {
     out.executions += edges as u64;
     out.transitions += edges as u64;
     for s in &seen {
-        out.add_state(&scen, &format!("{s:?}"));
+        out.add_state(&scen, s);
     }
     for (sig, what) in viols {
         out.violations.push(Violation {
@@ -307,7 +341,7 @@ fn models_part(sqlite: bool, depth: usize, out: &mut ItemOut) {
             scenario: scen.clone(),
             detail: String::new(),
             what: what.clone(),
-            replay: json!({"property": "C17", "signature": sig, "what": what, "models": (0..3).map(model_yml).collect::<Vec<_>>()}),
+            replay: json!({"property": "C17", "signature": sig, "what": what, "models": (0..3).map(|i| model_yml(i, 0)).collect::<Vec<_>>()}),
         });
     }
 }
@@ -319,7 +353,7 @@ impl Check for C17 {
         CheckInfo {
             id: "C17",
             level: "model_checking",
-            rule: "two interleaved processes (single interrupt; two branches with an interrupt each) that end by every pair of {complete, abort, skip, error} in both orders, each followed by a further action on the finished process, x both keep_processes settings x both stores, with an acknowledging channel so that message rows exist; every order of the queued engine work within the deviation bound; after every operation at quiescence the complete store (all proc, task and message rows) is compared with the snapshot before it; plus every sequence up to a depth of deploy / rm over three models with 2, 1 and 0 start events".into(),
+            rule: "two interleaved processes (single interrupt; two branches with an interrupt each) that end by every pair of {complete, abort, skip, error} in both orders, each followed by a further action on the finished process, x both keep_processes settings x both stores, with an acknowledging channel so that message rows exist; every order of the queued engine work within the deviation bound; after every operation at quiescence the complete store (all proc, task and message rows) is compared with the snapshot before it; plus every sequence up to a depth of deploy / rm over three models with 2, 1 and 0 start events and redeploys that drop or add an event".into(),
             assumptions: vec!["client operations are issued at quiescent points; the races of a removal with in-flight work are C03/C13".into()],
             budget_s: tier.pick(50, 600),
             exhaustive_when_uncapped: true,
